@@ -721,3 +721,87 @@ class parse_input:
                     yield "and-forgotten", is_none(s._input_timeout)
 
     loops = {0: Loop(invariant=_pi_loop0, decreases=lambda v: klen(v.codes), shapes={"decoded_codes": DECODED, "codes": CODES})}
+
+
+# --------------------------------------------------------------------------------------------- get_available_raw_input
+import selectors as _selectors  # noqa: E402
+
+from pyvc.seqs import ModelObj  # noqa: E402
+
+
+class _DrainSelector(ModelObj):
+    """selectors.DefaultSelector() as used to drain the resize pipe: register() has no visible effect, select(0)
+    returns an arbitrary (possibly empty) list — the readiness oracle is the operating system's."""
+
+    def py_enter(self, ip, st):
+        return self
+
+    def py_exit(self, ip, st, exc):
+        return False
+
+    def py_havoc(self, st):
+        pass
+
+    def py_call(self, ip, st, name, args, kwargs):
+        if name == "register":
+            return None
+        if name == "select":
+            n = st.fresh_int("nready")
+            st.assume(n >= 0)
+            return Q.SSeq(n, lambda j: 0, Int, None, "ready")
+        raise Unsupported(f"selector.{name}")
+
+
+class _PipeProtocol(Protocol):
+    kind = "ResizePipe"
+    methods = {"recv": PMethod(Opaque("Bytes"), params=["size"])}
+
+
+PROTOCOLS["ResizePipe"] = _PipeProtocol()
+PROTOCOLS["Bytes"] = type("BY", (Protocol,), {"kind": "Bytes", "methods": {}})()
+
+SCREEN_IN = Obj(_rdb.Screen, dict(_partial_codes=CODES, _resize_pipe_rd=Opaque("ResizePipe")))
+
+
+@contract(RD + "Screen._get_input_codes", property="C05", assumed=True, replayable=False,
+          notes="TRUSTED: reads the terminal (os.read / msvcrt through _get_keyboard_codes, a generator over I/O); "
+                "assumed to return a fresh list of byte values 0..255, to leave _partial_codes alone and not to raise.")
+class get_input_codes:
+    self_shape = SCREEN_IN
+    params = dict()
+    result = CODES
+
+    def ensures(old, s, a, result):
+        yield "bytes", klen(result) >= 0
+
+    ensures_callee = as_assumption(ensures)
+
+
+def _gari_real(ip, st, f, args, kwargs):
+    if f is _selectors.DefaultSelector:
+        return _DrainSelector()
+    return NotImplemented
+
+
+@contract(RD + "Screen.get_available_raw_input", property="C05", replayable=False)
+class get_available_raw_input:
+    self_shape = SCREEN_IN
+    params = dict()
+    result = CODES
+    raises = ()
+    modifies = ("_partial_codes",)
+    call_real = staticmethod(_gari_real)
+
+    def ensures(old, s, a, result):
+        reads = [c for c in cur().ghost.get("c05_calls", []) if c[0] == "get_input_codes"]
+        yield "the-terminal-is-read-exactly-once", len(reads) == 1
+        fresh = reads[0][2]
+        p = klen(old._partial_codes)
+        yield "pending-codes-come-first-then-the-new-input", both(
+            klen(result) == p + klen(fresh),
+            every(0, p, lambda j: kat(result, j) == kat(old._partial_codes, j)),
+            every(0, klen(fresh), lambda j: kat(result, p + j) == kat(fresh, j)))
+        yield "pending-codes-are-handed-over-not-kept", klen(s._partial_codes) == 0
+
+    # loop 0 drains the resize pipe: no termination claim (how long the pipe stays readable is the OS's business)
+    loops = {0: Loop(invariant=lambda v: True)}
